@@ -428,6 +428,12 @@ def run_engine(rep, tier, focus):
         rep.sample({'edge': {'pre': list(work_items[len(work_items) // 2][0][0]), 'op': work_items[len(work_items) // 2][1]}})
         # (C) random histories
         found.extend(random_histories(rep, work, hs, tier))
+        # (C') the operation sequences the repository's own test-suite performs, judged by the same spec
+        import rectest
+        rec, rc = rectest.record(work)
+        rep.extra['suite_recording'] = rec['stats']
+        for f, d in rectest.judge_grids(rep, work, rec):
+            found.append((f['clause'], f, d))
     return found
 
 
